@@ -43,7 +43,7 @@ class Checker(CheckerBase):
             self.tag('python-format-string-error',
                 prefix,
                 tags.safestr(exc.message),
-                tags.safestr(key),
+                key,
                 tags.safestr(str.join(', ', sorted(x for x in types))),
             )
         except backend.Error as exc:
